@@ -26,7 +26,8 @@ Qed.
 
 Lemma failure_phase s a e s' :
   step_stream s a e = Some s' -> is_start_failure e = true -> c_start s = TBegin \/ c_start s = TFiltUp.
-Proof. intros H Hf. destruct e; try discriminate Hf; destruct a; cbn in H; unfold guard in H; destruct (c_start s); auto;
+Proof. intros H Hf. destruct e; try discriminate Hf; try match goal with w : role |- _ => destruct w end;
+       destruct a; cbn in H; unfold guard in H; destruct (c_start s); auto;
        rewrite ?andb_false_r in H; try discriminate H. Qed.
 
 Lemma in_start_of_failure c s a e s' :
